@@ -175,11 +175,13 @@ def main(argv: List[str]) -> int:
             violations.append(v)
         else:
             total.notes.setdefault("unconfirmed_candidates", []).append(trunc(v, 400))
-    if total.notes.get("unconfirmed_candidates") and not violations:
-        write_evidence(prop, mod, total, ns.tier, seed, time.time() - t0, 0)
-        print(jdump(total.notes["unconfirmed_candidates"])[:2000])
-        print("HARNESS-ERROR property=%s candidate violations did not reproduce on replay" % prop)
-        return 2
+    if total.notes.get("unconfirmed_candidates"):
+        # a candidate that a fresh process does not reproduce (a time limit hit under load, state of the search process)
+        # is inconclusive: recorded in the evidence, never reported as a violation
+        n_unc = len(total.notes["unconfirmed_candidates"])
+        total.inconclusive += n_unc
+        print("INCONCLUSIVE: property=%s %d candidate(s) did not reproduce in a fresh process: %s" % (
+            prop, n_unc, jdump(total.notes["unconfirmed_candidates"])[:600]))
 
     # 4. open known findings: pinned inputs still failing are printed, nothing else is suppressed
     for e in findings.entries(prop, "open"):
